@@ -6,7 +6,7 @@ translate a scratch COPY of the sources into a scratch GeneratedApi.lean, compil
 ApiScratch.GeneratedApi), and elaborate a copy of Proofs/C08d.lean in which only the import line
 `import FancyModel.GeneratedApi` is redirected to it. Nothing under /repo or /verif/lean is written. Prints a markdown table.
 
-usage: rs2lean_api_sensitivity.py [--work DIR]      (default /tmp/apisens)
+usage: rs2lean_api_sensitivity.py [--work DIR] [--only SUBSTRING-OF-THE-CASE-NAME]      (default /tmp/apisens)
 """
 import glob, os, re, shutil, subprocess, sys
 
@@ -69,9 +69,36 @@ def mutations(src):
     yield ('(control) CaptureMatches::next: the `match … { Some(x) if c => A, _ => 0 }` written as Matches::next writes it (same meaning)',
            once(src, '        let option_flags = match self.0.last_match {\n            Some(last_match) if self.0.last_end > last_match => OPTION_SKIPPED_EMPTY_MATCH,\n            _ => 0,\n        };',
                 '        let option_flags = if let Some(last_match) = self.0.last_match {\n            if self.0.last_end > last_match {\n                OPTION_SKIPPED_EMPTY_MATCH\n            } else {\n                0\n            }\n        } else {\n            0\n        };', 'r'))
+    # ---- the widened subset
+    sn = '''            let start = self.splits.next_start;
+            self.splits.next_start = len + 1;
+            return Some(Ok(&self.splits.target[start..len]));'''
+    yield ('(control) SplitN::next: the local `start` renamed to `fuel` (a name the generated code uses itself: renamed apart; same meaning)',
+           once(src, sn, sn.replace('start', 'fuel').replace('next_fuel', 'next_start'), 'w1'))
+    yield ('(control) SplitN::next: `let len: usize = self.splits.target.len();` (type annotation, same meaning)',
+           once(src, '        let len = self.splits.target.len();\n        if self.splits.next_start > len {', '        let len: usize = self.splits.target.len();\n        if self.splits.next_start > len {', 'w2'))
+    yield ('(control) SplitN::next: `&self.splits.target[start..len]` -> `&self.splits.target[start..]` (same meaning: `len` is the length)',
+           once(src, 'return Some(Ok(&self.splits.target[start..len]));', 'return Some(Ok(&self.splits.target[start..]));', 'w3'))
+    yield ('(p) SplitN::next: the rest starts at `self.splits.matches.last_end.min(len)`',
+           once(src, '            let start = self.splits.next_start;\n', '            let start = self.splits.matches.last_end.min(len);\n', 'w4'))
+    yield ('(q) try_replacen: an early `if text.is_empty() { return Ok(Cow::Borrowed(text)); }`',
+           once(src, '        // If we know that the replacement doesn\'t have any capture expansions,', '        if text.is_empty() {\n            return Ok(Cow::Borrowed(text));\n        }\n        // If we know that the replacement doesn\'t have any capture expansions,', 'w5'))
+    yield ('(r) try_replacen (fast path): the items are taken with `while let Some((i, Ok(m))) = it.next()` (an error ends the loop silently)',
+           first(src, '            for (i, m) in it {\n                let m = m?;\n\n', '            while let Some((i, Ok(m))) = it.next() {\n', 'w6'))
+    yield ('(s) try_replacen (fast path): the emptiness test is `!matches!(it.peek(), Some((_, Ok(_))))` (an error as first item: the text is handed back)',
+           first(src, '            if it.peek().is_none() {', '            if !matches!(it.peek(), Some((_, Ok(_)))) {', 'w7'))
+    yield ('(t) SplitN::next: the length in characters, `self.splits.target.chars().count()`',
+           once(src, '        let len = self.splits.target.len();\n        if self.splits.next_start > len {', '        let len = self.splits.target.chars().count();\n        if self.splits.next_start > len {', 'w8'))
     yield ('(rejected?) Split::next: the items collected with `.map(..)`',
            once(src, '            Some(Err(e)) => Some(Err(e)),\n        }\n    }\n}\n\nimpl<\'r, \'h> core::iter::FusedIterator for Split',
                 '            Some(Err(e)) => Some(Err(e)).map(|x| x),\n        }\n    }\n}\n\nimpl<\'r, \'h> core::iter::FusedIterator for Split', 's'))
+
+# seeded changes INSIDE a translated function that leave the generated Lean unchanged: why
+IDENTICAL_WHY = {
+    'seeded/C11/e': 'BLIND SPOT: the change is the argument of `String::with_capacity` in try_replacen (`text.len() + rep.len() * limit`); a '
+                    'capacity has no counterpart in the model, and that `usize` arithmetic does not overflow is an assumption of the translators',
+}
+
 
 def locate(line):
     """the theorem of Proofs/C05f.lean that contains a line"""
@@ -103,6 +130,8 @@ def main():
             cases.append((name, None))
             continue
         cases.append((name, {'lib.rs': open(os.path.join(d, 'src', 'lib.rs')).read(), 'vm.rs': open(os.path.join(d, 'src', 'vm.rs')).read()}))
+    if '--only' in sys.argv:
+        cases = cases[:1] + [x for x in cases[1:] if sys.argv[sys.argv.index('--only') + 1] in x[0]]
     base_gen = None
     rows = []
     for i, (name, files) in enumerate(cases):
@@ -126,7 +155,7 @@ def main():
             base_gen = g
         same = (re.sub(r'line \d+', 'line N', g) == re.sub(r'line \d+', 'line N', base_gen))      # up to the line numbers in the doc comments
         if same and i:
-            rows.append((name, 'accepted, generated Lean identical (up to line numbers)', 'proof HOLDS', 'the change is outside the translated functions' if name.startswith('seeded') else ''))
+            rows.append((name, 'accepted, generated Lean identical (up to line numbers)', 'proof HOLDS', IDENTICAL_WHY.get(name, 'the change is outside the translated functions') if name.startswith('seeded') else ''))
             continue
         env = dict(os.environ, LEAN_PATH=os.path.join(d, 'lib') + ':' + lean_path)
         r = sh([lean_bin, '--root=' + os.path.join(d, 'root'), '-o', os.path.join(d, 'lib', 'ApiScratch', 'GeneratedApi.olean'), gen],
